@@ -517,6 +517,18 @@ def rule_for_to_while(text, ordinal, kind, log, label):
         head = 'let %s = str_split_lf(%s); let mut %s: usize = 0; while %s < %s.len()' % (vv, e, iv, iv, vv)
         first = 'let %s = %s[%s]; %s += 1;' % (pat, vv, iv, iv)
         rule = 'R27'
+    elif kind == 'chunks_exact_enumerate':
+        # R29: for (I, C) in E.chunks_exact(N).enumerate()  ->  indexed while over the E.len()/N full chunks,
+        # C = slice_subrange(E, i*N, i*N+N)   (chunks_exact ignores a trailing remainder, so does this)
+        m = re.match(r'^(.*)\.chunks_exact\((\d+)\)\.enumerate\(\)$', expr, re.S)
+        pm = re.match(r'^\(\s*([A-Za-z_0-9]+)\s*,\s*([A-Za-z_0-9]+)\s*\)$', pat, re.S)
+        if not m or not pm:
+            raise Undecided('%s: R29 pattern mismatch: %r / %r' % (label, pat, expr))
+        e, n = m.group(1), m.group(2)
+        head = 'let %s: usize = %s.len() / %s; let mut %s: usize = 0; while %s < %s' % (nv, e, n, iv, iv, nv)
+        first = 'let %s = %s; let %s: &[u8] = slice_subrange(%s.as_slice(), %s * %s, %s * %s + %s); %s += 1;' % (
+            pm.group(1), iv, pm.group(2), e, iv, n, iv, n, n, iv)
+        rule = 'R29'
     elif kind == 'range':
         m = re.match(r'^(.*?)\.\.(.*)$', expr, re.S)
         if not m or m.group(2).startswith('='):
